@@ -41,6 +41,14 @@ def kind_info(kind):
         "time_ms": ("INT32", "TIME_MILLIS", lambda k: [0, 1, 3600000, 86399999][k], "m"),
         "decimal32": ("INT32", "DECIMAL", lambda k: [-12345, -1, 0, 99999][k], "f"),
         "int96": ("INT96", None, lambda k: [0, 1, 86399 * 10 ** 9, 5 * 10 ** 9][k], "M"),
+        "decimal64": ("INT64", "DECIMAL", lambda k: [-12345, -1, 0, 99999][k], "f"),
+        "decimal_ba": ("BYTE_ARRAY", "DECIMAL", lambda k: [-12345, -1, 0, 99999][k], "f"),
+        "decimal_flba": ("FIXED_LEN_BYTE_ARRAY", "DECIMAL", lambda k: [-12345, -1, 0, 99999][k], "f"),
+        "time_us": ("INT64", "TIME_MICROS", lambda k: [0, 1, 3600000000, 86399999999][k], "m"),
+        "int8": ("INT32", "INT_8", lambda k: [-128, -7, 11, 127][k], "i"),
+        "uint16": ("INT32", "UINT_16", lambda k: [0, 7, 32768, 65535][k], "u"),
+        "json": ("BYTE_ARRAY", "JSON", lambda k: [{"a": 1}, [1, 2], "s", {"b": None}][k], "O"),
+        "ts_ns_logical": ("INT64", None, lambda k: [-86400000000000 * 400, -1, 0, 1600000000123456789][k], "M"),
         "flba": ("FIXED_LEN_BYTE_ARRAY", None, lambda k: [b"abc", b"\x00\x00\x01", b"zzz", b"\xff\x00a"][k], "O"),
     }
     return K[kind]
@@ -49,12 +57,18 @@ def kind_info(kind):
 def physical(kind, k):
     pt, ct, f, _ = kind_info(kind)
     v = f(k)
+    if kind == "json":
+        return json.dumps(v).encode()
     if pt == "BYTE_ARRAY" and isinstance(v, str):
         return v.encode("utf8")
     if kind in ("uint32",) and v >= 2 ** 31:
         return v - 2 ** 32
     if kind in ("uint64",) and v >= 2 ** 63:
         return v - 2 ** 64
+    if kind == "decimal_ba":
+        return int(v).to_bytes(max(1, (int(v).bit_length() + 8) // 8), "big", signed=True)
+    if kind == "decimal_flba":
+        return int(v).to_bytes(3, "big", signed=True)
     if kind == "int96":
         return int(v).to_bytes(8, "little") + (2440588 + k).to_bytes(4, "little")
     if kind == "float":
@@ -97,8 +111,16 @@ def equal(kind, got, k):
                 ms = ((got.hour * 60 + got.minute) * 60 + got.second) * 1000 + got.microsecond // 1000
                 return ms == want
             return pd.Timedelta(got) == pd.Timedelta(want, unit="ms")
-        if kind == "decimal32":
+        if kind in ("decimal32", "decimal64", "decimal_ba", "decimal_flba"):
             return abs(float(got) - want / 100.0) < 1e-9
+        if kind == "time_us":
+            if isinstance(got, datetime.time):
+                return (((got.hour * 60 + got.minute) * 60 + got.second) * 1000000 + got.microsecond) == want
+            return pd.Timedelta(got) == pd.Timedelta(want, unit="us")
+        if kind == "json":
+            return got == want
+        if kind == "ts_ns_logical":
+            return pd.Timestamp(got) == pd.Timestamp(want, unit="ns")
         if kind == "utf8":
             return (got.decode("utf8") if isinstance(got, bytes) else str(got)) == want
         if kind in ("bytes", "flba"):
@@ -118,8 +140,10 @@ def make_spec(case):
     node = {"name": "x", "type": pt, "repetition": "OPTIONAL" if case["optional"] else "REQUIRED", "converted_type": ct}
     if pt == "FIXED_LEN_BYTE_ARRAY":
         node["type_length"] = 3
-    if kind == "decimal32":
+    if kind in ("decimal32", "decimal64", "decimal_ba", "decimal_flba"):
         node["scale"], node["precision"] = 2, 7
+    if kind == "ts_ns_logical":
+        node["logical_type"] = {"TIMESTAMP": {"isAdjustedToUTC": False, "unit": {"NANOS": {}}}}
     cells = case["cells"]
     rgs = []
     for g in case["rgs"]:
